@@ -499,7 +499,7 @@ func gen(t *rapid.T) Case {
 		}
 	}
 	famFrom, famTo := -1, -1
-	if rapid.IntRange(0, 3).Draw(t, "revision-family") == 0 {
+	if rapid.IntRange(0, 2).Draw(t, "revision-family") == 0 {
 		// several revisions of one module, and modules that import it with and without a revision-date: what
 		// the bare name and the prefix denote changes when a later revision is loaded after a processing run
 		dates := []string{"2019-05-05", "2020-01-01", "2021-12-31"}
@@ -508,7 +508,7 @@ func gen(t *rapid.T) Case {
 		// the oldest member may be a text without revision statement, which a dated one supersedes
 		undated := rapid.IntRange(0, 2).Draw(t, "oldest-without-revision") == 0
 		// the members may include a submodule that holds an identity and a typedef they build on
-		withSub := rapid.IntRange(0, 2).Draw(t, "family-submodule") == 0
+		withSub := rapid.Bool().Draw(t, "family-submodule")
 		// a family without a single typedef (and nothing else in the pool): whatever is remembered per typedef
 		// or per "the typedefs were resolved" has nothing to hang on
 		bare := rapid.IntRange(0, 3).Draw(t, "family-without-typedefs") == 0
@@ -650,6 +650,31 @@ func gen(t *rapid.T) Case {
 		}
 	}
 	next := 0
+	if famFrom >= 0 && famTo-famFrom >= 2 && rapid.IntRange(0, 2).Draw(t, "one-family-text-arrives-late") == 0 {
+		// scripted opening: every family text but one is loaded (in the order drawn) and processed, then the
+		// last one arrives - a later revision of the module or of its submodule, the text without revision, the
+		// base module, an importer - and everything is processed again; the drawn operations follow
+		var fam, rest []int
+		for _, i := range order {
+			if i >= famFrom && i < famTo {
+				fam = append(fam, i)
+			} else {
+				rest = append(rest, i)
+			}
+		}
+		late := rapid.IntRange(0, len(fam)-1).Draw(t, "late-text")
+		for k, i := range fam {
+			if k != late {
+				c.Ops = append(c.Ops, Op{Kind: "good", Idx: i})
+			}
+		}
+		c.Ops = append(c.Ops, Op{Kind: "process"})
+		if rapid.Bool().Draw(t, "read-before-the-late-text") {
+			c.Ops = append(c.Ops, Op{Kind: "read"})
+		}
+		c.Ops = append(c.Ops, Op{Kind: "good", Idx: fam[late]}, Op{Kind: "process"})
+		order, next = append(fam, rest...), len(fam)
+	}
 	n := rapid.IntRange(2, maxOps).Draw(t, "ops")
 	for i := 0; i < n; i++ {
 		switch rapid.IntRange(0, 9).Draw(t, "op") {
@@ -680,7 +705,7 @@ func TestCheck(t *testing.T) {
 	ev.Run(t, ev.Spec[Case]{
 		ID:    "C18",
 		Level: "exploration",
-		Rule: "operation histories of 3-17 steps on one module set: load(next text of a pool of mutually consistent single-(sub)module texts from the schema model - a quarter of the pools also hold 2-3 revisions of one module (a quarter of these families without any typedef and alone in the pool; with a submodule in a third, whose include the latest revision may drop while defining the submodule's identity itself) with a base module and modules importing the family with and without revision-date, reaching its typedef, grouping and identity through a drawn selection of shapes (typedef chains, union typedefs, nested and inline unions, scoped typedefs, rpc input/output, choice, notification, augments); the family texts come first in two thirds of these pools - in a random order so that imports and includes are often not yet loaded and later revisions arrive after a processing run; a fifth of the pools consist of the wrong, cyclic and mutated texts of C01's generators, where a pool text rejected at load counts as a failed load), load(bad text: syntax error; module or submodule rejected by a later statement after an inner node with a typedef was already built; a duplicate of a loaded text), process, read (accessors and path lookups that create rpc input/output on demand), getmodule (Modules.GetModule of a loaded name, compared with the same call on a fresh set). " +
+		Rule: "operation histories of 3-17 steps on one module set: load(next text of a pool of mutually consistent single-(sub)module texts from the schema model - a third of the pools also hold 2-3 revisions of one module (a quarter of these families without any typedef and alone in the pool; with a submodule in half, whose include the latest revision may drop while defining the submodule's identity itself) with a base module and modules importing the family with and without revision-date, reaching its typedef, grouping and identity through a drawn selection of shapes (typedef chains, union typedefs, nested and inline unions, scoped typedefs, rpc input/output, choice, notification, augments); the family texts come first in two thirds of these pools (and in a third of the family pools a scripted opening loads all family texts but one, processes, then loads the last and processes again) - in a random order so that imports and includes are often not yet loaded and later revisions arrive after a processing run; a fifth of the pools consist of the wrong, cyclic and mutated texts of C01's generators, where a pool text rejected at load counts as a failed load), load(bad text: syntax error; module or submodule rejected by a later statement after an inner node with a typedef was already built; a duplicate of a loaded text), process, read (accessors and path lookups that create rpc input/output on demand), getmodule (Modules.GetModule of a loaded name, compared with the same call on a fresh set). " +
 			"Oracle (model = list of accepted good texts): after every process the error list and, when it is empty, the complete dump (trees of all modules and submodules with types, attributes and identity value lists) equal those of a fresh set into which exactly the accepted texts were loaded in the same order and processed once; two consecutive process runs give equal results; every bad load returns an error. " +
 			"Non-trivial = a process after a failed load, or a process after a load that followed an earlier process; distinct by (texts, operation sequence)",
 		Assumptions: []string{
